@@ -272,6 +272,10 @@ impl<'a, 'ast> Visit<'ast> for Auto<'a> {
         if is_tracing_macro(&m.mac) {
             let r = self.src.range(m);
             self.push(r, "()", "R1-tracing");
+        } else if m.mac.path.is_ident("format") {
+            // R23: `format!(..)` in expression position -> `vx_format()` (an opaque String; message text is not part of any contract)
+            let r = self.src.range(m);
+            self.push(r, "vx_format()", "R23-format");
         }
     }
 
